@@ -65,6 +65,14 @@ func runC06(c *Ctx, w *World, r *Report) {
 		}
 		// fixedSize initialiser
 		badI := "fixedSize is not initialised in package init"
+		if nc, ok := pk.Members["fixedSize"].(*ssa.NamedConst); ok && nc.Value != nil {
+			// declared as a constant: its value must be the encoded size of the header struct (32: R-LAYOUT above)
+			if k, exact := constant.Int64Val(constant.ToInt(nc.Value.Value)); exact && k == 32 {
+				badI = ""
+			} else {
+				badI = fmt.Sprintf("the constant fixedSize is %d, the encoded header has 32 bytes", k)
+			}
+		}
 		if ini := pk.Func("init"); ini != nil {
 			eachInstr(ini, func(ins ssa.Instruction) {
 				st, ok := ins.(*ssa.Store)
@@ -121,7 +129,21 @@ func runC06(c *Ctx, w *World, r *Report) {
 			})
 		}
 		bad := ""
-		if len(orders) != 2 {
+		// a side that encodes/decodes the fixed layout by hand (endian.Uint64(buf[16:]) ...) instead of through
+		// encoding/binary's reflection: every field is moved at its own offset and width with the package's endian
+		manual := map[string]string{}
+		for _, n := range []string{"pbcmpl.(*header).Marshal", "pbcmpl.(*header).Unmarshal"} {
+			if why, isManual := manualHeaderCodec(w, fns[n]); isManual {
+				manual[n] = why
+				if why != "" {
+					bad = n + ": " + why
+				} else {
+					where = append(where, "field-by-field codec with pbcmpl.endian in "+n)
+				}
+			}
+		}
+		if bad != "" {
+		} else if len(orders)+len(manual) != 2 {
 			bad = fmt.Sprintf("expected one binary.Write and one binary.Read, found %d", len(orders))
 		} else {
 			for i, o := range orders {
@@ -162,7 +184,7 @@ func runC06(c *Ctx, w *World, r *Report) {
 			}
 			switch fieldName(fad) {
 			case "HeaderSize":
-				if derivesFromGlobal(st.Val, "pbcmpl", "fixedSize") {
+				if derivesFromGlobal(w, st.Val, "pbcmpl", "fixedSize") {
 					badH = ""
 				} else {
 					badH = "HeaderSize field is set to something other than fixedSize"
@@ -181,7 +203,7 @@ func runC06(c *Ctx, w *World, r *Report) {
 		hs := fns["pbcmpl.HeaderSize"]
 		okHS := true
 		for _, ret := range returnsOf(hs) {
-			if !derivesFromGlobal(ret.Results[0], "pbcmpl", "fixedSize") {
+			if !derivesFromGlobal(w, ret.Results[0], "pbcmpl", "fixedSize") {
 				okHS = false
 			}
 		}
@@ -205,11 +227,14 @@ func runC06(c *Ctx, w *World, r *Report) {
 						continue
 					}
 				}
-				if derivesFromGlobal(v, "pbcmpl", "fixedSize") && coef == 1 {
+				if derivesFromGlobal(w, v, "pbcmpl", "fixedSize") && coef == 1 {
 					nh++
 					continue
 				}
 				badS = "Size has an extra term " + atom
+			}
+			if kf, isK := w.NamedConstInt("pbcmpl", "fixedSize"); isK && L.K == kf && nh == 0 {
+				nh, L.K = 1, 0 // fixedSize declared as a constant: it is the constant part of the sum
 			}
 			if L.K != 0 || nh != 1 || np != 1 {
 				badS = "Size is " + L.String() + ", expected HeaderSize(msg) + proto.Size(msg)"
@@ -354,8 +379,53 @@ func runC06(c *Ctx, w *World, r *Report) {
 				cp = call
 			}
 		})
+		// the same thing said with an element loop: h.Version[i] = ver[i] for i = 0 .. len(ver)-1
+		loopCopy := false
 		if cp == nil {
-			bad = "version is never copied into the header"
+			eachInstr(fn, func(ins ssa.Instruction) {
+				st, ok := ins.(*ssa.Store)
+				if !ok {
+					return
+				}
+				ia, ok := st.Addr.(*ssa.IndexAddr)
+				if !ok {
+					return
+				}
+				fad, ok := ia.X.(*ssa.FieldAddr)
+				if !ok || fieldName(fad) != "Version" {
+					return
+				}
+				srcX, srcI, ok := asElemLoad(st.Val)
+				if lk, isLk := stripConv(st.Val).(*ssa.Lookup); isLk {
+					srcX, srcI, ok = lk.X, lk.Index, true
+				}
+				if !ok || srcX != ssa.Value(fn.Params[0]) || !fa.Lin(srcI).Eq(fa.Lin(ia.Index)) {
+					bad = "a byte stored into the Version field at " + w.InstrPos(st) + " is not the byte of ver at the same position"
+					return
+				}
+				iv, ok := fa.InductionOf(ia.Index, st.Block())
+				if !ok || !iv.FirstConst || iv.First != 0 || iv.Step != 1 || !iv.HasN || !iv.N.Eq(linAtom("call:builtin len(p0)")) {
+					bad = "the loop that copies the version does not run over every byte 0 .. len(ver)-1"
+					return
+				}
+				if ee := fa.earlyExit(iv); ee != "" {
+					bad = "the loop that copies the version can be left early: " + ee
+					return
+				}
+				bd := fa.BoundsAt(st.Block(), linAtom("call:builtin len(p0)"))
+				if !(bd.HasHi && bd.Hi == 16) {
+					bad = "the copy is not guarded by len(ver) <= 16 exactly (known: len(ver) in " + bd.String() + ")"
+					return
+				}
+				loopCopy = true
+			})
+		}
+		if loopCopy {
+			// decided above
+		} else if cp == nil {
+			if bad == "" {
+				bad = "version is never copied into the header"
+			}
 		} else {
 			dst, ok := cp.Common().Args[0].(*ssa.Slice)
 			okDst := false
@@ -784,4 +854,145 @@ func init() {
 		Quick:   []Config{cfgDefault, cfg386}, Thorough: []Config{cfgDefault, cfg386, cfgArm64},
 		Run: runC06,
 	})
+}
+
+// manualHeaderCodec recognises a hand-written codec of the header struct in fn (receiver *header, parameter or
+// result []byte): stores h.F = endian.UintN(buf[off:]) / calls endian.PutUintN(buf[off:], h.F) for the integer
+// fields and copy between h.Version[:] and buf[:16]. isManual is false when fn uses no method of the endian variable.
+// why is empty when every field is moved at types.Sizes' offset with its own width.
+func manualHeaderCodec(w *World, fn *ssa.Function) (why string, isManual bool) {
+	if fn == nil || len(fn.Params) == 0 {
+		return "", false
+	}
+	pt, ok := fn.Params[0].Type().Underlying().(*types.Pointer)
+	if !ok {
+		return "", false
+	}
+	st, ok := pt.Elem().Underlying().(*types.Struct)
+	if !ok {
+		return "", false
+	}
+	var fields []*types.Var
+	for i := 0; i < st.NumFields(); i++ {
+		fields = append(fields, st.Field(i))
+	}
+	offs := w.Sizes.Offsetsof(fields)
+	done := map[string]bool{}
+	fa := w.FA(fn)
+	sliceLow := func(v ssa.Value) (int64, bool) {
+		sl, ok := v.(*ssa.Slice)
+		if !ok {
+			return 0, false
+		}
+		if sl.Low == nil {
+			return 0, true
+		}
+		L := fa.Lin(sl.Low)
+		return L.K, L.IsConst()
+	}
+	fieldOf := func(addr ssa.Value) (int, bool) {
+		fad, ok := addr.(*ssa.FieldAddr)
+		if !ok || fad.X != ssa.Value(fn.Params[0]) {
+			return 0, false
+		}
+		return fad.Field, true
+	}
+	eachInstr(fn, func(ins ssa.Instruction) {
+		call, ok := ins.(*ssa.Call)
+		if !ok {
+			return
+		}
+		nm := calleeName(call.Common())
+		if nm == "builtin copy" {
+			// Version: copy(h.Version[:], buf[:16]) or the reverse
+			for k := 0; k < 2; k++ {
+				sl, ok := call.Common().Args[k].(*ssa.Slice)
+				if !ok {
+					continue
+				}
+				fi, ok := fieldOf(sl.X)
+				if !ok {
+					continue
+				}
+				at, isArr := fields[fi].Type().Underlying().(*types.Array)
+				if !isArr {
+					continue
+				}
+				isManual = true
+				lo, okLo := sliceLow(call.Common().Args[1-k])
+				if !okLo || lo != offs[fi] {
+					why = fmt.Sprintf("field %s is copied from/to byte offset %d, its offset in the header is %d", fields[fi].Name(), lo, offs[fi])
+				}
+				if o, ok := call.Common().Args[1-k].(*ssa.Slice); ok && o.High != nil {
+					if hi, isK := constInt64(o.High); !isK || hi != offs[fi]+at.Len() {
+						why = fmt.Sprintf("field %s is copied with upper bound %s, expected %d", fields[fi].Name(), fa.Lin(o.High), offs[fi]+at.Len())
+					}
+				} else if k == 1 {
+					why = "the copy of " + fields[fi].Name() + " is not bounded to the field's width"
+				}
+				done[fields[fi].Name()] = true
+			}
+			return
+		}
+		f := call.Common().StaticCallee()
+		if f == nil || f.Pkg == nil || f.Pkg.Pkg.Path() != "encoding/binary" || f.Signature.Recv() == nil {
+			return
+		}
+		// the receiver must be the package's endian variable
+		recv := call.Common().Args[0]
+		if u, ok := recv.(*ssa.UnOp); !ok || u.Op != token.MUL || !isGlobal(u.X, "pbcmpl", "endian") {
+			isManual = true
+			why = "a byte-order method is called on something other than the package's `endian` variable at " + w.InstrPos(call)
+			return
+		}
+		isManual = true
+		name := f.Name()
+		width := map[string]int64{"Uint16": 2, "Uint32": 4, "Uint64": 8, "PutUint16": 2, "PutUint32": 4, "PutUint64": 8}[name]
+		if width == 0 {
+			why = "unexpected byte-order method " + name
+			return
+		}
+		lo, okLo := sliceLow(call.Common().Args[1])
+		if !okLo {
+			why = "the byte offset of " + name + " at " + w.InstrPos(call) + " is not a constant"
+			return
+		}
+		fi := -1
+		if strings.HasPrefix(name, "Put") {
+			if _, fn2, ok := asFieldLoad(call.Common().Args[2]); ok {
+				for i, fv := range fields {
+					if canonField(fn.Params[0].Type(), i) == fn2 || fv.Name() == fn2 {
+						fi = i
+					}
+				}
+			}
+		} else if call.Referrers() != nil {
+			for _, ref := range *call.Referrers() {
+				if stt, ok := ref.(*ssa.Store); ok {
+					if i, ok := fieldOf(stt.Addr); ok {
+						fi = i
+					}
+				}
+			}
+		}
+		if fi < 0 {
+			why = "the value moved by " + name + " at " + w.InstrPos(call) + " is not a field of the header"
+			return
+		}
+		if lo != offs[fi] {
+			why = fmt.Sprintf("field %s is moved at byte offset %d, its offset in the header is %d", fields[fi].Name(), lo, offs[fi])
+		}
+		if w.Sizes.Sizeof(fields[fi].Type()) != width {
+			why = fmt.Sprintf("field %s is moved with %s (%d bytes), the field has %d", fields[fi].Name(), name, width, w.Sizes.Sizeof(fields[fi].Type()))
+		}
+		done[fields[fi].Name()] = true
+	})
+	if isManual && why == "" {
+		for _, fv := range fields {
+			if !done[fv.Name()] {
+				why = "field " + fv.Name() + " of the header is not encoded/decoded"
+			}
+		}
+	}
+	return
 }
